@@ -366,7 +366,11 @@ func m3GenCase(r *Rng, pf m3Profile, idx int) *m3Case {
 	}
 	cs.includeHost = r.Chance(30)
 	cs.common = map[string]string{}
-	for n := r.Intn(7); len(cs.common) < n; {
+	nCommon := r.Intn(7)
+	if r.Chance(10) {
+		nCommon = r.Range(9, 14) // more common tags than a pooled tag slice has room for (10)
+	}
+	for n := nCommon; len(cs.common) < n; {
 		k := m3TagStr(r)
 		if k == "" || k == "service" || k == "env" || k == "host" {
 			continue
@@ -501,6 +505,7 @@ func m3GenCase(r *Rng, pf m3Profile, idx int) *m3Case {
 		nHandles = len(tagSets) + r.Intn(4)
 	}
 	edgeTags := pf.suite == "c12" && r.Chance(20) // 13 / 14 / 15 tags once the two bucket tags are added
+	wideTags := r.Chance(15)
 	mkHandle := func(prefix string, j int) *m3Handle {
 		kind := []string{"counter", "gauge", "timer", "hist"}[r.Intn(4)]
 		switch traffic {
@@ -516,6 +521,10 @@ func m3GenCase(r *Rng, pf m3Profile, idx int) *m3Case {
 			tags = tagSets[r.Intn(len(tagSets))]
 		} else {
 			tags = m3Tags(r, r.Intn(9))
+		}
+		if wideTags && r.Chance(50) {
+			tags = m3Tags(r, r.Range(9, 16)) // around and beyond the capacity of a pooled tag slice (10)
+			cls("tags-9-16")
 		}
 		if edgeTags && kind == "hist" {
 			tags = m3Tags(r, r.Range(11, 13))
@@ -1326,7 +1335,7 @@ func m3Suite(c *Ctx, suite string, n int) {
 }
 
 func suiteC12(c *Ctx) {
-	c.Cov.Rule = "sessions of the real m3 reporter against loopback UDP sinks: both protocols, MaxPacketSizeBytes from the constructor's minimum (probed) through 1440/8192/32768 to 65000, names 1-600 bytes, 0-8 tags (11-13 for the 13/14/15-tag edge), 0-6 extra common tags, IncludeHost, value extremes, plain / histogram-only / mixed traffic, flushes at random positions, runs whose sequence number passes 128 (16384 thorough), 1 and 3 destinations, queue sizes 1..4096, 1-4 producer goroutines; one evaluation = one received datagram judged by Spec.C12 (length, per-metric charge vs bytes, envelope, batch sum) together with the hook-observed charges; nontrivial = the datagram is within 700 bytes of the limit (it was closed because the next metric did not fit); distinct by the datagram's first 64 bytes and length"
+	c.Cov.Rule = "sessions of the real m3 reporter against loopback UDP sinks: both protocols, MaxPacketSizeBytes from the constructor's minimum (probed) through 1440/8192/32768 to 65000, names 1-600 bytes, 0-8 tags (11-13 for the 13/14/15-tag edge; 9-16 in one session of seven), 0-6 extra common tags (9-14 in one session of ten), IncludeHost, value extremes, plain / histogram-only / mixed traffic, flushes at random positions, runs whose sequence number passes 128 (16384 thorough), 1 and 3 destinations, queue sizes 1..4096, 1-4 producer goroutines; one evaluation = one received datagram judged by Spec.C12 (length, per-metric charge vs bytes, envelope, batch sum) together with the hook-observed charges; nontrivial = the datagram is within 700 bytes of the limit (it was closed because the next metric did not fit); distinct by the datagram's first 64 bytes and length"
 	m3Suite(c, "c12", c.N(110, 600))
 }
 
